@@ -29,7 +29,7 @@ def run(ctx):
     ctx.cov_add(states=r.distinct, transitions=r.generated)
     out = os.path.join(ctx.work, 'attacks.json')
     cfg = pc.write_cfg(os.path.join(ctx.work, 'expa.cfg'), ['INIT Init0', 'NEXT Next0', 'CONSTANT Deviations = {}', 'CONSTANT MaxInst = 3', 'CHECK_DEADLOCK FALSE'])
-    tlc.run('ExportXmlAttack', cfg, ctx.work, env={'OUT_FILE': out})
+    tlc.run('ExportXmlAttack', cfg, ctx.work, env={'OUT_FILE': out, 'FAMILY': ctx.tier})
     d = json.load(open(out))
     d['attacks'].sort(key=lambda a: json.dumps(a, sort_keys=True))
     d['scripts'].sort(key=lambda a: json.dumps(a, sort_keys=True))
